@@ -50,7 +50,11 @@ def vicase(draw):
     lines = draw(st.lists(vline, min_size=1, max_size=5))
     steps = []
     for _ in range(draw(st.integers(1, 8))):
-        k = draw(st.sampled_from(["h", "l", "h", "l", "|", "|", "j", "k", "$", "0", "^", " ", "\x7f"]))
+        k = draw(st.sampled_from(["h", "l", "h", "l", "|", "|", "j", "k", "$", "0", "^", " ", "\x7f", "h", "l", "|", "j", "k", ":esc", "/esc", ":nop"]))
+        if k in (":esc", "/esc", ":nop"):
+            # a prompt that is cancelled (or a command that changes nothing) must leave direction, order and limit as they were
+            steps.append([k, 0, None])
+            continue
         cnt = draw(st.integers(1, 30)) if k == "|" else draw(st.sampled_from([0, 0, 0, 1, 2, 3, 7]))
         if k == "0":
             cnt = 0
@@ -232,6 +236,10 @@ def run_vicase(env, c):
             v.move(" ", c["off"])
             keys += "%d " % c["off"]
         for key, cnt, _ in c["steps"]:
+            if key in (":esc", "/esc", ":nop"):
+                keys += {":esc": ":se td=2\x1b", "/esc": "/ab\x1b", ":nop": ":ec x\n"}[key]
+                v.col = v.off2col(v.row, v.off) if key == ":nop" else v.col      # (a successful : command recomputes the remembered column)
+                continue
             v.move(key, cnt, None)
             keys += (str(cnt) if cnt else "") + key
             if v.context(v.row) < 0:
@@ -240,7 +248,7 @@ def run_vicase(env, c):
                 reord = True
     except vim.Unmodelled:
         return Outcome(True, False, ["vi_unmodelled"])
-    nt = reord and any(k in "hl|" for k, _, _ in c["steps"])
+    nt = reord and any(k in ("h", "l", "|") for k, _, _ in c["steps"])
     cl = ["vi", "vi_rtl_context" if rtl else "vi_ltr_context", "vi_reordered" if reord else "vi_logical"]
     r, out, cur, _ = viutil.run_vi(env, c["lines"], keys, rows=24, cols=100, want_stats=False)
     if r.timeout:
